@@ -22,12 +22,14 @@ SIZES = {"quick": dict(budget_s=40, batch=100, fuzz_s=20), "thorough": dict(budg
 FLOORS = {"nontrivial": 0.6, "string_256_or_longer": 0.1}
 
 
-def pack(props, entries, trailer):
+def pack(props, entries, trailer, header=True):
     out = bytearray()
-    out += b"\0" + b"sreV" + b"\0" * 16
-    for k, v in props:
-        out += k.encode("latin-1") + b"\0" + v.encode("latin-1") + b"\0"
-    out += b"\0"
+    if header:
+        out += b"\0" + b"sreV" + b"\0" * 16
+        for k, v in props:
+            out += k.encode("latin-1") + b"\0" + v.encode("latin-1") + b"\0"
+        out += b"\0"
+    # (header=False: an archive without the version header and thus without properties - the first record is an entry)
     fields = []            # offsets of 32-bit fields (for corruption)
     for name, data in entries:
         out += name.encode("latin-1") + b"\0"
@@ -43,7 +45,7 @@ def pack(props, entries, trailer):
     return bytes(out), fields, term_at
 
 
-_name = st.lists(st.sampled_from(list("abcxyz019_ .") + ["\\", "\\", "\xe4", "\xff"]), min_size=1, max_size=12).map("".join).filter(lambda s: s.strip(" .\\") and not s.startswith("?"))
+_name = st.lists(st.sampled_from(list("abcxyz019_ .") + ["\\", "\\", "/", "\xe4", "\xff"]), min_size=1, max_size=12).map("".join).filter(lambda s: s.strip(" .\\") and not s.startswith("?"))
 # strings longer than the reader's 256-byte chunk: directory segments of <= 60 characters up to a total around the chunk boundaries
 _LONG = st.builds(lambda n, c, i: "\\".join([(c * 50 + str(i))] * 30)[:n].rstrip("\\ ."), st.sampled_from([120, 254, 255, 256, 257, 258, 300, 511, 512, 513, 700, 1100]), st.sampled_from("abxyz"), st.integers(0, 9))
 _name_any = st.one_of(*([_name] * 19 + [_LONG]))
@@ -56,12 +58,19 @@ def _cases(draw):
     props = [("prefix", draw(st.sampled_from(["x\\addons\\main", "pre", "a\\b", "z"])))] + [(draw(st.sampled_from(["version", "author", "k1", "k2", "pboprefix2"])), draw(st.one_of(*([st.sampled_from(["1", "", "some value", "a\\b"])] * 9 + [_LONG])))) for _ in range(nprops)]
     if draw(st.integers(0, 5)) == 0:
         props = props[1:]
-    names = draw(st.lists(_name_any, min_size=0, max_size=10, unique_by=lambda s: s.lower()))
+    names = draw(st.lists(_name_any, min_size=0, max_size=10, unique_by=lambda s: s.lower().replace("/", "\\")))
     entries = [(n, draw(_data)) for n in names]
     trailer = draw(st.booleans())
+    noheader = draw(st.integers(0, 7)) == 0 and len(names) > 0
+    if noheader:
+        props = []            # no version header, no properties
     fault = draw(st.sampled_from(["none", "none", "truncate", "truncate", "truncate", "field", "field", "flip", "flip", "noterm_props", "noterm_headers", "absent", "empty"]))
     case = dict(props=[list(p) for p in props], entries=[[n, d.decode("latin-1")] for n, d in entries], trailer=trailer, fault=fault)
-    blob, fields, term_at = pack(props, entries, trailer)
+    if noheader:
+        case["noheader"] = True
+        if fault in ("noterm_props",):
+            case["fault"] = fault = "none"
+    blob, fields, term_at = pack(props, entries, trailer, header=not noheader)
     if fault == "truncate":
         case["at"] = draw(st.integers(0, max(0, len(blob) - 1)))
     elif fault == "field":
@@ -94,7 +103,7 @@ def _dir_state(d):
 def build(case):
     props = [tuple(p) for p in case["props"]]
     entries = [(n, d.encode("latin-1")) for n, d in case["entries"]]
-    blob, fields, term_at = pack(props, entries, case["trailer"])
+    blob, fields, term_at = pack(props, entries, case["trailer"], header=not case.get("noheader"))
     f = case["fault"]
     if f == "truncate":
         blob = blob[:case["at"]]
